@@ -86,6 +86,32 @@ def def_items():
               {'ty': 'def', 'name': 'c1', 'type': "'a => bool", 'prop': "d1 x <--> true"},
               {'ty': 'def', 'name': 'conj', 'type': "bool => bool => bool", 'prop': "conj x y <--> ~x"},
               {'ty': 'def', 'name': 'c1', 'type': "'a => bool", 'prop': "c1 (x::'b) <--> true"}]
+    # new instances of overloaded constants (the name is already in the signature; the instance is what is being defined)
+    for nm, sym in (('less', '<'), ('less_eq', '<='), ('plus', '+'), ('times', '*')):
+        isrel = nm in ('less', 'less_eq')
+        for T, xs in (("bool => bool => %s" % ('bool' if isrel else 'bool'), ('x', 'y', 'bool')), ("(nat => nat) => (nat => nat) => %s" % ('bool' if isrel else 'nat => nat'), ('f', 'g', 'nat => nat'))):
+            a, b, aT = xs
+            lhs = "(%s::%s) %s %s" % (a, aT, sym, b)
+            if aT == 'bool':
+                rhss = ["%s | %s" % (a, b), "~(%s)" % lhs, "(%s::%s) %s %s" % (b, aT, sym, a), "~((%s::%s) %s %s)" % (b, aT, sym, a), "%s & ~((%s::%s) %s %s)" % (a, a, aT, sym, a), "(0::nat) %s 1" % sym if isrel else "%s & %s" % (a, b)]
+            elif isrel:
+                rhss = ["!n. %s n %s %s n" % (a, sym, b), "~(%s)" % lhs, "~((%s::%s) %s %s)" % (b, aT, sym, a), "%s 0 %s %s 0 & (%s::%s) %s %s" % (a, sym, b, a, aT, sym, b)]
+            else:
+                rhss = ["(%%n. %s n %s %s n)" % (a, sym, b), "(%%n. Suc ((%s) n))" % lhs, "(%%n. ((%s::%s) %s %s) n)" % (b, aT, sym, a), "(%%n. Suc (((%s::%s) %s %s) n))" % (b, aT, sym, a)]
+            for r in rhss:
+                items.append({'ty': 'def', 'name': nm, 'type': T, 'prop': "%s %s %s" % (lhs, '<-->' if (isrel or aT == 'bool') else '=', r)})
+    # generated right-hand sides (depth 2) for the predicate shapes
+    rnd = random.Random(5)
+    for name, T, lhs, atoms in (('c1', "'a => bool", 'c1 x', ["x = x", "c1 x", "(!u::'a. c1 u)", "(?u::'a. ~(c1 u))", "(!u::'b. !v::'b. u = v)", "x = y", "(?u::'a. ~(u = x))"]),
+                                ('c2', "'a => 'a => bool", 'c2 x y', ["x = y", "c2 y x", "c2 x x", "(!u::'a. c2 u y)", "(?u::'b. !v::'b. u = v)", "c2 y y"])):
+        seen = set()
+        for _ in range(400):
+            k = rnd.choice(['&', '|', '-->', '<-->', '~&', '~'])
+            a, b = rnd.choice(atoms), rnd.choice(atoms)
+            r = {'&': '%s & %s', '|': '%s | %s', '-->': '%s --> %s', '<-->': '(%s) <--> (%s)', '~&': '~(%s) & %s', '~': '~(%s --> %s)'}[k] % (a, b)
+            if r not in seen and len(seen) < 70:
+                seen.add(r)
+                items.append({'ty': 'def', 'name': name, 'type': T, 'prop': "%s <--> (%s)" % (lhs, r)})
     _D['defs'] = items
     return items
 
@@ -102,6 +128,28 @@ def other_items():
                                                                         {'name': 'Node', 'type': "'a tree => 'a => 'a tree => 'a tree", 'args': ['l', 'v', 'r']}]},
         {'ty': 'type.ind', 'name': 'opt', 'args': ['a'], 'constrs': [{'name': 'Non', 'type': "'a opt", 'args': []}, {'name': 'Som', 'type': "'a => 'a opt", 'args': ['v']}]},
         {'ty': 'def.ax', 'name': 'mystery', 'type': "'a => nat"},
+    ]
+    # datatypes: every constructor-argument kind, including the type being defined at *another* instance (non-uniform recursion)
+    argkinds1 = ["'a", "nat", "'a dt", "bool dt", "('a => 'a) dt", "nat dt", "'a => nat"]
+    n = 0
+    for k1 in argkinds1:
+        for k2 in [None] + argkinds1[:5]:
+            args = [k1] + ([k2] if k2 else [])
+            items.append({'ty': 'type.ind', 'name': 'dt', 'args': ['a'], 'constrs': [
+                {'name': 'DNil', 'type': "'a dt", 'args': []},
+                {'name': 'DCons', 'type': ' => '.join([('(%s)' % a if '=>' in a and not a.endswith(' dt') else a) for a in args] + ["'a dt"]), 'args': ['x%d' % i for i in range(len(args))]}]})
+    for k1 in ("('a, 'b) dp", "('b, 'a) dp", "('a, 'a) dp", "(nat, 'b) dp", "'a", "'b"):
+        for k2 in ("'b", "('b, 'a) dp"):
+            items.append({'ty': 'type.ind', 'name': 'dp', 'args': ['a', 'b'], 'constrs': [
+                {'name': 'PLeaf', 'type': "'a => ('a, 'b) dp", 'args': ['v']},
+                {'name': 'PNode', 'type': "%s => %s => ('a, 'b) dp" % (k1, k2), 'args': ['l', 'r']}]})
+    # recursive functions and inductive predicates of a few more shapes
+    items += [
+        {'ty': 'def.ind', 'name': 'addn', 'type': 'nat => nat => nat', 'rules': [{'prop': 'addn 0 m = m'}, {'prop': 'addn (Suc n) m = Suc (addn n m)'}]},
+        {'ty': 'def.ind', 'name': 'poly', 'type': "'a => nat => 'a", 'rules': [{'prop': 'poly x 0 = x'}, {'prop': 'poly x (Suc n) = poly x n'}]},
+        {'ty': 'def.ind', 'name': 'badty', 'type': 'nat => nat', 'rules': [{'prop': 'badty 0 = 0'}, {'prop': 'badty (Suc n) = (if badty n then 0 else 1)'}]},
+        {'ty': 'def.pred', 'name': 'rel', 'type': "'a => 'a => bool", 'rules': [{'name': 'rel_refl', 'prop': 'rel x x'}, {'name': 'rel_sym', 'prop': 'rel x y --> rel y x'}]},
+        {'ty': 'def.pred', 'name': 'le2', 'type': 'nat => nat => bool', 'rules': [{'name': 'le2_0', 'prop': 'le2 0 n'}, {'name': 'le2_S', 'prop': 'le2 m n --> le2 (Suc m) (Suc n)'}]},
     ]
     _D['other'] = items
     return items
@@ -179,7 +227,7 @@ def consistent(prop, cname, ctype):
                 insts.append(rename_tvars(closed, ren))
                 for v, k in zip(extra, esz):
                     sizes["'" + ren[v]] = k
-            fin = FinC(2, sizes, cname)
+            fin = FinC(2, sizes, cname, ctype)
             s = z3.Solver()
             s.set('timeout', 5000)
             fs = [fin.tr(i) for i in insts]
@@ -212,13 +260,13 @@ def consistent(prop, cname, ctype):
         return 'unknown', str(e)[:80]
 
 
-def FinC(k, sizes, cname):
+def FinC(k, sizes, cname, ctype=None):
     """Finite encoding in which the defined constant is an uninterpreted symbol (all others must be interpreted)."""
     from vlib.holsmt import Fin, Unsupported, PY_CONSTS
 
     class _F(Fin):
         def const(self, h, args, env, envT):
-            if h.name == cname and h.name not in PY_CONSTS:
+            if h.name == cname and (h.name not in PY_CONSTS or (ctype is not None and h.T == ctype)):
                 f = self.symbol(h)
                 fT = h.T
                 for a in args:
